@@ -191,6 +191,8 @@ std::string mapping_desc(int proc) {
 // ---------------------------------------------------------------- IPC queries
 int last_sem_obj() { Task *t = cur(); return t ? k->last_sem[t->id] : -1; }
 int last_shm_obj() { Task *t = cur(); return t ? k->last_shm[t->id] : -1; }
+long last_fstat_size() { Task *t = cur(); return t ? k->last_fstat_size[t->id] : -1; }
+size_t last_shm_size_at_open() { Task *t = cur(); return t ? k->last_shm_size_at_open[t->id] : 0; }
 bool last_shm_created() { Task *t = cur(); return t && k->last_shm_created[t->id]; }
 const char *last_sem_name() { Task *t = cur(); return t ? k->last_sem_name[t->id].c_str() : ""; }
 const char *last_shm_name() { Task *t = cur(); return t ? k->last_shm_name[t->id].c_str() : ""; }
@@ -437,6 +439,8 @@ int simk_shm_open(const char *name, int oflag, mode_t) {
       fd = fd_alloc(proc_of(t->proc), e);
       k->last_shm[t->id] = o->id;
       k->last_shm_created[t->id] = it == k->shm_names.end();
+      k->last_shm_size_at_open[t->id] = o->size;
+      k->last_fstat_size[t->id] = -1;
       ev("shm_open", o->id, fd);
     }
   }
@@ -486,6 +490,7 @@ int simk_fstat(int fd, struct stat *st) {
     memset(st, 0, sizeof *st);
     st->st_mode = e->kind == FD_SOCK ? S_IFSOCK | 0777 : S_IFREG | 0660;
     st->st_size = e->kind == FD_SHM ? (off_t)e->shm->size : 0;
+    if (cur()) k->last_fstat_size[cur()->id] = (long)st->st_size;
     st->st_nlink = 1;
   }
   ipc_exit();
